@@ -296,7 +296,7 @@ class Explorer:
         self.seen.add(d0)
         self.stats["states"] += 1
         # stack entries: (world, history(tuple chain), events list, next index)
-        stack = [(world0, None, self._pick(enabled_events(world0, spec)), 0, 0)]
+        stack = [(world0, None, self._pick(enabled_events(world0, spec), 0), 0, 0)]
         self._end_or_continue(world0, None, stack[0][2], report)
         while stack:
             world, hist, events, idx, depth = stack.pop()
@@ -319,19 +319,25 @@ class Explorer:
                 if self.max_states and self.stats["states"] >= self.max_states:
                     self.capped = True
                     continue
-                evs2 = self._pick(enabled_events(w2, spec))
+                evs2 = self._pick(enabled_events(w2, spec), depth + 1)
                 self._end_or_continue(w2, h2, evs2, report)
                 if evs2:
                     stack.append((w2, h2, evs2, 0, depth + 1))
         return self.stats
 
-    def _pick(self, events):
+    def _pick(self, events, depth=0):
         if self.schedule == "all" or len(events) <= 1:
             return events
         if self.schedule == "first":
             return events[:1]
         if self.schedule == "last":
             return events[-1:]
+        if self.schedule in ("alt", "alt2"):  # alternate first/last enabled event with the step parity
+            odd = (depth + (1 if self.schedule == "alt2" else 0)) % 2
+            return events[-1:] if odd else events[:1]
+        if self.schedule in ("alt3", "alt4"):  # period-3 pattern: changes the arrival order from cycle to cycle
+            r = (depth + (1 if self.schedule == "alt4" else 0)) % 3
+            return events[-1:] if r == 0 else events[:1]
         raise ValueError(self.schedule)
 
     def _end_or_continue(self, world, hist, events, report):
